@@ -345,7 +345,7 @@ PROPS["C12"] = dict(
                "faults (C20) are not in the table.",
     quick=[("asan", 16, 40), ("plain", 8, 40)],
     thorough=[("asan", 16, 1500), ("plain", 16, 4000), ("memcheck", 8, 3, {"budget": 900})],
-    floors={"quick": {"distinct_faults_in_table": 300, "sequence_objects_faulted": 100, "map_objects_faulted": 100,
+    floors={"quick": {"empty_after_resize_0": 20, "empty_after_draining": 20, "distinct_faults_in_table": 300, "sequence_objects_faulted": 100, "map_objects_faulted": 100,
                       "string_objects_faulted": 50, "range_objects_faulted": 50, "scalar_objects_faulted": 1}},
     exhaustive=False,
     rule="evaluation = one fault (object kind, operation, invalid argument, size) executed with all oracles; the "
